@@ -1268,6 +1268,8 @@ MUTANTS = [
                     throw_exception(exception_id::bad_alloc);
                 }
             }""")]),
+    dict(name='c11-seed5-long-table-copy-skips-the-straddling-segment', prop='C11', clause='D2', edits=[(CV_H, '        for (segment_index_type i = 0; this->segment_base(i) < start_index; ++i) {\n            spin_wait_while_eq(embedded_table[i], segment_type(nullptr));', '        const segment_index_type start_segment = this->segment_index_of(start_index);\n        for (segment_index_type i = 0; i < start_segment; ++i) {\n            spin_wait_while_eq(embedded_table[i], segment_type(nullptr));')]),
+    dict(name='c11-long-table-copy-waits-one-segment-short', prop='C11', clause='D2', edits=[(CV_H, '        for (segment_index_type i = 0; this->segment_base(i) < start_index; ++i) {\n            spin_wait_while_eq(embedded_table[i], segment_type(nullptr));', '        for (segment_index_type i = 0; this->segment_base(i + 1) < start_index; ++i) {\n            spin_wait_while_eq(embedded_table[i], segment_type(nullptr));')]),
     # ---------------------------------------------------------------- C12
     dict(name='c12-cas-before-set_next', prop='C12', clause='D1', edits=[
         (CUB_H, "        new_node->set_next(current_next_node);\n        return prev_node->try_set_next(current_next_node, new_node);",
@@ -1646,6 +1648,7 @@ MUTANTS += [
 ]
 
 BENIGN = [
+    dict(name='c11-b-long-table-wait-bound-by-segment-index', prop='C11', edits=[(CV_H, '        for (segment_index_type i = 0; this->segment_base(i) < start_index; ++i) {\n            spin_wait_while_eq(embedded_table[i], segment_type(nullptr));', '        for (segment_index_type i = 0; start_index != 0 && i <= this->segment_index_of(start_index - 1); ++i) {\n            spin_wait_while_eq(embedded_table[i], segment_type(nullptr));')]),
     dict(name='c19-b-key-swapped-by-hand', prop='C19', edits=[('include/oneapi/tbb/enumerable_thread_specific.h', '       using std::swap;\n       __TBB_ASSERT(this!=&other, "Don\'t swap an instance with itself");\n       swap(my_key, other.my_key);\n       super::table_swap(other);', '       __TBB_ASSERT(this!=&other, "Don\'t swap an instance with itself");\n       tls_key_t k = my_key;\n       my_key = other.my_key;\n       other.my_key = k;\n       super::table_swap(other);')]),
     dict(name='c20-b-fifo-gate-through-a-local', prop='C20', edits=[(TDH, '    bool stealing_is_allowed = can_steal();\n', '    bool stealing_is_allowed = can_steal();\n    const bool streams_allowed = isolation == no_isolation;\n'), (TDH, '        else if (fifo_allowed && isolation == no_isolation\n                 && (t = get_stream_or_critical_task(ed, a, fifo_stream, fifo_hint, isolation, critical_allowed))) {', '        else if (streams_allowed && fifo_allowed\n                 && (t = get_stream_or_critical_task(ed, a, fifo_stream, fifo_hint, isolation, critical_allowed))) {')]),
     dict(name='c16-b-fifo-gate-through-a-local', prop='C16', edits=[(TDH, '    bool stealing_is_allowed = can_steal();\n', '    bool stealing_is_allowed = can_steal();\n    const bool streams_allowed = isolation == no_isolation;\n'), (TDH, '        else if (fifo_allowed && isolation == no_isolation\n                 && (t = get_stream_or_critical_task(ed, a, fifo_stream, fifo_hint, isolation, critical_allowed))) {', '        else if (streams_allowed && fifo_allowed\n                 && (t = get_stream_or_critical_task(ed, a, fifo_stream, fifo_hint, isolation, critical_allowed))) {')]),
